@@ -3,7 +3,9 @@ import chan_common as cc
 
 def run(tier, seed):
     return cc.run_check("C05", tier, seed,
-        mc_cfgs=(["ChanMC_c05.cfg"], ["ChanMC_c05.cfg", "ChanMC_c05t.cfg"]),
+        mc_cfgs=(["ChanMC_c05.cfg", "MonBroadcast:MonBroadcast.cfg"], ["ChanMC_c05.cfg", "ChanMC_c05t.cfg", "MonBroadcast:MonBroadcast.cfg"]),
+        mutant_cfgs=("MonBroadcast:MonBroadcastMutant.cfg",),
+        mc_actions_by_module={"MonBroadcast": ("UserBroadcast", "Handle", "Notice")},
         profiles=[("default", 2, 200), ("tamper", 2, 120), ("crash", 2, 80), ("asyncreest", 2, 120), ("async", 2, 40), ("default", 3, 40)],
         thorough_profiles=[("default", 2, 2000), ("tamper", 2, 1200), ("crash", 2, 1000), ("asyncreest", 2, 1500), ("async", 2, 800), ("default", 3, 400), ("crash", 3, 300)],
         families=[("asynccross", 250), ("inflight", 150), ("monbcast", 200), ("asyncsign", 200)], thorough_families=[("asynccross", 2500), ("inflight", 1500), ("monbcast", 1500), ("asyncsign", 1500)],
